@@ -112,11 +112,12 @@ func (node *SimpleNode) AddNode(n Node) {
 	//
 	// We can't simply remove this node because we would have to make sure we
 	// work our way up the chain which we have no easy way of doing right now.
-	resetNodeCache()
+	nodesChanged(n)
 }
 
 func (node *SimpleNode) DeleteNode(n Node) (didDelete bool) {
 	node.children, didDelete = node.children.deleteNode(n)
+	nodesChanged(n)
 
 	return
 }
@@ -225,7 +226,9 @@ func (node *SimpleNode) GEDCOMLine(indent int) string {
 //
 // You can use SetNodes(nil) to remove all child nodes.
 func (node *SimpleNode) SetNodes(nodes Nodes) {
+	nodesChanged(node.children...)
 	node.children = nodes
+	nodesChanged(nodes...)
 }
 
 func (node *SimpleNode) RawSimpleNode() *SimpleNode {
